@@ -688,6 +688,7 @@ func c15PrintLaw(vals []stick.Value) string {
 			"p.txt":  "{% for v in vs %}{{ v }}\x00{{ v ~ '' }}\x00{% if v %}T{% else %}F{% endif %}{{ v ? 'T' : 'F' }}\x00{% endfor %}",
 			"p.html": "{% for v in vs %}{{ v }}\x00{{ v|escape('html') }}\x00{{ v|raw }}\x00{% endfor %}",
 			"p.js":   "{% for v in vs %}{{ v }}\x00{{ v|escape('js') }}\x00{{ v|raw }}\x00{% endfor %}",
+			"f.txt":  "{% for v in vs %}{{ v|default('D') }}\x00{{ v|lower }}\x00{{ v|upper }}\x00{{ v|trim }}\x00{{ v|abs }}\x00{{ v|capitalize }}\x00{{ v|url_encode }}\x01{% endfor %}",
 		}})
 	}
 	var vs []stick.Value
@@ -748,8 +749,28 @@ func c15PrintLaw(vals []stick.Value) string {
 			}
 		}
 	}
+	// built-in filters of the Twig package that look at their operand through the coercions give, for a wrapped
+	// value, what they give for the value inside (default, lower, upper, trim, abs, capitalize, url_encode; not length, which does not look through wrappers on the pinned tree)
+	nb := len(vs) / 4
+	out, err, pan := tryExec(c15TwigEnv, "f.txt", map[string]stick.Value{"vs": vs})
+	if err != nil || pan != "" {
+		return fmt.Sprintf("filtering %d values: %v %s", len(vs), err, pan)
+	}
+	rows := strings.Split(out, "\x01")
+	for j := nb; j < len(vs) && j < len(rows); j++ {
+		if b := (j - nb) / 3; rows[j] != rows[b] {
+			gr, br := strings.Split(rows[j], "\x00"), strings.Split(rows[b], "\x00")
+			for k := range gr {
+				if k < len(br) && gr[k] != br[k] {
+					return fmt.Sprintf("{{ v|%s }} gives %q for v = %T(%v) but %q for the same value wrapped as %T", c15FilterLaw[k], br[k], vs[b], vs[b], gr[k], vs[j])
+				}
+			}
+		}
+	}
 	return ""
 }
+
+var c15FilterLaw = []string{"default('D')", "lower", "upper", "trim", "abs", "capitalize", "url_encode"}
 
 func c15Run(c core.Case) core.Result {
 	res := c15RunBase(c)
